@@ -24,8 +24,11 @@ CONSTANTS Main, Workers, \* the main thread and the worker threads (strings: the
           Sigs,         \* handled signals explored
           MaxRaise,     \* signals raised per process (2 reaches the "second thread pauses" branch of the handler)
           SoftLimit,    \* transit_events_soft_limit (1: _poll always takes the batch branch)
+          WaitEmpty,    \* BackendOptions::wait_for_queues_to_empty_before_exit (FALSE: _exit() does not drain; then only
+                        \* the signal clause of C07 is asserted)
           Variant,      \* "code" | "exit_ignores_rings" | "no_final_flush" | "no_once_regen" | "reraise_before_flush"
                         \* | "exit0_for_fatal" | "spawn_unmasked" | "cleanup_nonempty" (defects: an invariant must fail)
+                        \* | "graceful_exit_no_flush" (SIGINT/SIGTERM: exit() without flush_log; a defect iff ~WaitEmpty)
                         \* | "no_atexit" (harmless in the model: static destruction still stops and drains)
           Export        \* TRUE: keep the program history and print it when the process ends
 C == INSTANCE LifeContract
@@ -236,7 +239,7 @@ BExitCheck ==
   /\ BAlive /\ bpc = "e_check"
   /\ LET c2 == UpdCache IN
      /\ cache' = c2 /\ newFlag' = FALSE
-     /\ IF (IF Variant = "exit_ignores_rings" THEN QueuesEmpty(c2) ELSE AllEmpty(c2))
+     /\ IF ~WaitEmpty \/ (IF Variant = "exit_ignores_rings" THEN QueuesEmpty(c2) ELSE AllEmpty(c2))
         THEN bpc' = "e_flush" /\ UNCHANGED <<q, ring>>
         ELSE bpc' = "e_batch" /\ Populate(c2)
   /\ UNCHANGED <<fe, fbuf, disk, flag, ctx, runFlag, bmask, btid, lf, sg, gh, outcome, hist>>
@@ -262,7 +265,7 @@ SpXchg(t) ==
   /\ Alive /\ pc[t] = "sp_xchg"
   /\ IF runFlag
      THEN /\ runFlag' = FALSE /\ Goto(t, "sp_join")
-          /\ must' = [u \in Threads |-> IF nlog[u] > must[u] THEN nlog[u] ELSE must[u]]
+          /\ must' = (IF WaitEmpty THEN [u \in Threads |-> IF nlog[u] > must[u] THEN nlog[u] ELSE must[u]] ELSE must)
           /\ expectUp' = FALSE
      ELSE /\ Goto(t, IF ret[t] = "ex2" THEN "ex_static" ELSE "sp_once") /\ UNCHANGED <<runFlag, must, expectUp>>
   /\ UNCHANGED <<ret, hsig, hscope, nlog, pipe, reg, bpc, bmask, btid, lf, sg, sigInfo, outcome, hist>>
@@ -296,7 +299,7 @@ ExitCall(t, kind, code) ==
   /\ MayCall(t) /\ (kind = "ret" => t = Main)
   /\ BeginExit(t, code) /\ endKind' = kind
   \* normal process exit is a stop request when a backend is up
-  /\ must' = (IF expectUp THEN [u \in Threads |-> IF nlog[u] > must[u] THEN nlog[u] ELSE must[u]] ELSE must)
+  /\ must' = (IF expectUp /\ WaitEmpty THEN [u \in Threads |-> IF nlog[u] > must[u] THEN nlog[u] ELSE must[u]] ELSE must)
   /\ hist' = H(kind, t, ToString(code))
   /\ UNCHANGED <<ret, hsig, hscope, nlog, pipe, reg, bk, ctxTid, once, atexitN, starts, sg, expectUp, sigInfo, outcome>>
 
@@ -313,7 +316,7 @@ ExAtexit(t) ==
 ExManual(t) ==
   /\ Alive /\ pc[t] = "ex_manual"
   /\ LET c2 == UpdCache
-         skip == Variant = "exit_ignores_rings" /\ QueuesEmpty(c2)
+         skip == ~WaitEmpty \/ (Variant = "exit_ignores_rings" /\ QueuesEmpty(c2))
          all == [u \in Threads |-> IF u \in c2 /\ ~skip THEN ring[u] \o q[u] ELSE <<>>]
          wr == [u \in Threads |-> fbuf[u] \o SelectSeq(all[u], LAMBDA it : it.k # "f")] IN
      /\ cache' = c2 /\ newFlag' = FALSE
@@ -374,8 +377,11 @@ HTid(t) ==
 HLog(t) ==
   /\ Alive /\ pc[t] = "h_log"
   /\ q' = [q EXCEPT ![t] = Append(@, C!Notice(hsig[t]))]
-  /\ Goto(t, IF hsig[t] \in C!Graceful THEN "h_flush" ELSE "h_crit")
-  /\ UNCHANGED <<ret, hsig, hscope, nlog, ring, fbuf, disk, flag, reg, bk, lf, sg, gh, outcome, hist>>
+  /\ IF hsig[t] \in C!Graceful /\ Variant = "graceful_exit_no_flush"
+     THEN BeginExit(t, 0)                                       \* relies on the exit-time drain of the atexit stop
+     ELSE Goto(t, IF hsig[t] \in C!Graceful THEN "h_flush" ELSE "h_crit") /\ UNCHANGED <<xleft, xcode>>
+  /\ UNCHANGED <<ret, hsig, hscope, nlog, ring, fbuf, disk, flag, reg, bk, ctxTid, once, atexitN, endKind, starts, sg, gh,
+                 outcome, hist>>
 
 \* "Program terminated unexpectedly ..."
 HCrit(t) ==
@@ -453,7 +459,7 @@ SimSpec == Init /\ [][Step]_vars
 
 (* ------------------------------------------------------------------ C07 on the model *)
 \* whenever no backend thread exists, every statement promised by a stop request is on disk (written AND flushed
-\* before the backend thread terminated), in order
+\* before the backend thread terminated), in order. (Promises are only made when WaitEmpty: see SpXchg / ExitCall.)
 StopOK == bpc = "none" => \A t \in Threads : C!HasStmts(disk[t], t, must[t])
 \* after Start has returned the backend runs - also the second time round
 RestartOK == (Alive /\ expectUp /\ nraise = 0) => (runFlag /\ bpc # "none")
